@@ -11,6 +11,9 @@ import (
 
 const (
 	s2kParamsZero = 4294967296
+	// maxIterations is the largest PBKDF2 iteration count accepted in s2kparams. The parameters come from the KDC's
+	// unauthenticated pre-authentication hints: without a bound a reply could keep the client computing for hours.
+	maxIterations = 0x1000000
 )
 
 // StringToKey returns a key derived from the string provided according to the definition in RFC 3961.
@@ -18,6 +21,9 @@ func StringToKey(secret, salt, s2kparams string, e etype.EType) ([]byte, error) 
 	i, err := S2KparamsToItertions(s2kparams)
 	if err != nil {
 		return nil, err
+	}
+	if i > maxIterations {
+		return nil, errors.New("invalid s2kparams, iteration count too large")
 	}
 	return StringToKeyIter(secret, salt, i, e)
 }
